@@ -16,7 +16,7 @@ def _reg(g):
 
 
 class H:
-    def __init__(self, group, name, tiers="qt", timeout=300, mem=10, mode="full", replay="playback", unwind=None,
+    def __init__(self, group, name, tiers="qt", timeout=300, mem=14, mode="full", replay="playback", unwind=None,
                  doc="", schema=None, replay_args=None, fs=None):
         self.fs = fs
         self.group, self.name, self.tiers = group, name, tiers
@@ -202,7 +202,7 @@ def l2_backend(name, group, aad, sizes, quick=True, paserk=True, pke=True, publi
     q = "qt" if quick else "t"
 
     def rt(n, m, f, a, tiers):
-        out["C01"].append(H(group, P + n, tiers, timeout=1500, mem=10, mode="lean", replay="native:local_roundtrip",
+        out["C01"].append(H(group, P + n, tiers, timeout=1500, mem=14, mode="lean", replay="native:local_roundtrip",
                             schema=KEY + MFA, replay_args={"backend": name, "m": m, "f": f, "a": a},
                             doc="%s local: seal with the library's own nonce path then unseal, every key/nonce/message; |m|=%d |f|=%d |a|=%d" % (name, m, f, a)))
     rt("local_roundtrip_m0_f0_a0", 0, 0, 0, "t")
@@ -211,7 +211,7 @@ def l2_backend(name, group, aad, sizes, quick=True, paserk=True, pke=True, publi
     rt("local_roundtrip_m33_f1", 33, 1, A, "t")
     if public:
         for n, m, f, a, tiers in (("public_roundtrip_m0_f0_a0", 0, 0, 0, "t"), ("public_roundtrip_m3_f2", 3, 2, A, q)):
-            out["C01"].append(H(group, P + n, tiers, timeout=1500, mem=10, mode="lean", replay="native:public_roundtrip",
+            out["C01"].append(H(group, P + n, tiers, timeout=1500, mem=14, mode="lean", replay="native:public_roundtrip",
                                 schema=MFA, replay_args={"backend": name, "m": m, "f": f, "a": a, "loops": sizes.get("sign_loops", 400)},
                                 doc="%s public: sign with a generated key then verify; |m|=%d |f|=%d |a|=%d" % (name, m, f, a)))
         out["C01"].append(H(group, P + "public_seal_total_m3_f2", q, timeout=900, mem=12, mode="lean", replay="native:public_roundtrip",
@@ -219,7 +219,7 @@ def l2_backend(name, group, aad, sizes, quick=True, paserk=True, pke=True, publi
                             doc="%s public: signing never fails for a valid key, for every value the signature scheme can return; output = message ‖ signature of the prescribed length" % name))
     # C02 / C12
     def tam(purpose, n, w, tiers, m=2, f=2, a=A):
-        h = H(group, P + n, tiers, timeout=1500, mem=10, mode="lean", replay="native:%s_tamper" % purpose,
+        h = H(group, P + n, tiers, timeout=1500, mem=14, mode="lean", replay="native:%s_tamper" % purpose,
               schema=TOK + (KEY if purpose == "local" else []) + MFA,
               replay_args={"backend": name, "m": m, "f": f, "a": a, "w": w},
               doc="%s %s: tamper class %s on a genuinely sealed token must be rejected" % (name, purpose, n.split("_", 2)[2]))
@@ -241,85 +241,85 @@ def l2_backend(name, group, aad, sizes, quick=True, paserk=True, pke=True, publi
             tam("public", "public_tamper_" + cn2, w, q if cn in {"w8_ct_to_footer", "w12_extend_end"} else "t", 2, 2, 2 if (aad and w in (1, 4, 5, 6, 7)) else A)
     if not aad:
         for n in ("local_aad_refused_",) + (("public_aad_refused_",) if public else ()):
-            out["C02"].append(H(group, P + n, q, timeout=1200, mem=10, mode="lean", replay="none",
+            out["C02"].append(H(group, P + n, q, timeout=1200, mem=14, mode="lean", replay="none",
                                 doc="%s: a non-empty implicit assertion is refused with ClaimsError on seal and unseal" % name))
     # C04
     for n in ["local_unseal_arbitrary_n0", "local_unseal_arbitrary_below", "local_unseal_arbitrary_min", "local_unseal_arbitrary_above"] + (
             ["public_unseal_arbitrary_n0", "public_unseal_arbitrary_below", "public_unseal_arbitrary_above"] if public else []):
         base = (sizes["nonce"] + sizes["tag"]) if n.startswith("local") else sizes["sig"]
         ln = {"n0": 0, "below": base - 1, "min": base, "above": base + (2 if n.startswith("local") else 1)}[n.rsplit("_", 1)[1]]
-        out["C04"].append(H(group, P + n, q if n.endswith(("_below", "_min")) else "t", timeout=1500, mem=10, mode="full", replay="native:arbitrary_len", schema=[],
+        out["C04"].append(H(group, P + n, q if n.endswith(("_below", "_min")) else "t", timeout=1500, mem=14, mode="full", replay="native:arbitrary_len", schema=[],
                             replay_args={"backend": name, "op": n.split("_")[0], "n": ln},
                             doc="%s: unseal of arbitrary payload bytes of length %d, every Kani memory-safety/panic/overflow check on" % (name, ln)))
     # C16
     for n in (["local_rng_fail_closed_"] + (["public_rng_fail_closed_"] if public else [])) if rng_fail else []:
-        out["C16"].append(H(group, P + n, q, timeout=900, mem=10, mode="lean", replay="native:rng_fail", schema=[],
+        out["C16"].append(H(group, P + n, q, timeout=900, mem=14, mode="lean", replay="native:rng_fail", schema=[],
                             replay_args={"backend": name, "op": "local_seal" if n.startswith("local") else "random_secret", "at": 0},
                             doc="%s: RNG failure at the draw of nonce()/random() is returned as Err, nothing is produced" % name))
     if paserk:
         for n, kind in (("pie_roundtrip_local", "local"), ("pie_roundtrip_secret", "secret")):
-            out["C05"].append(H(group, P + n, q if kind == "local" else "t", timeout=1500, mem=10, mode="lean", replay="native:pie",
+            out["C05"].append(H(group, P + n, q if kind == "local" else "t", timeout=1500, mem=14, mode="lean", replay="native:pie",
                                 schema=[("wkey", "bytes:32"), ("kd", "bytes:%d" % (32 if kind == "local" else sizes["secret_len"]))],
                                 replay_args={"backend": name, "kind": kind, "w": 255},
                                 doc="%s PIE %s: wrap then unwrap returns the key; output length fixed" % (name, kind)))
         for n, w in (("pie_tamper_w0_bit", 0), ("pie_tamper_w1_relabel", 1), ("pie_tamper_w2_other_key", 2), ("pie_tamper_w3_trunc", 3), ("pie_tamper_w4_extend", 4)):
-            out["C06"].append(H(group, P + n, q if w in (0, 1) else "t", timeout=1500, mem=10, mode="lean", replay="native:pie",
+            out["C06"].append(H(group, P + n, q if w in (0, 1) else "t", timeout=1500, mem=14, mode="lean", replay="native:pie",
                                 schema=TOK + [("wkey", "bytes:32"), ("kd", "bytes:32")], replay_args={"backend": name, "kind": "local", "w": w},
                                 doc="%s PIE: tamper class %s must be rejected" % (name, n[11:])))
         if rng_fail:
-            out["C16"].append(H(group, P + "pie_rng_fail_closed_", q, timeout=900, mem=10, mode="lean", replay="native:rng_fail", schema=[],
+            out["C16"].append(H(group, P + "pie_rng_fail_closed_", q, timeout=900, mem=14, mode="lean", replay="native:rng_fail", schema=[],
                                 replay_args={"backend": name, "op": "pie", "at": 0}, doc="%s PIE: RNG failure => Err" % name))
         for n in ("pie_unwrap_arbitrary_n0", "pie_unwrap_arbitrary_below", "pie_unwrap_arbitrary_above"):
             ln = {"n0": 0, "below": sizes["pie_over"] - 1, "above": sizes["pie_over"] + 1}[n.rsplit("_", 1)[1]]
-            out["C04"].append(H(group, P + n, q if n.endswith("_below") else "t", timeout=1500, mem=10, mode="full", replay="native:arbitrary_len", schema=[],
+            out["C04"].append(H(group, P + n, q if n.endswith("_below") else "t", timeout=1500, mem=14, mode="full", replay="native:arbitrary_len", schema=[],
                                 replay_args={"backend": name, "op": "pie", "n": ln}, doc="%s: pie_unwrap_key on arbitrary bytes of length %d" % (name, ln)))
-        out["C05"].append(H(group, P + "pw_roundtrip_local_default", q, timeout=1500, mem=10, mode="lean", replay="native:pw",
+        out["C05"].append(H(group, P + "pw_roundtrip_local_default", q, timeout=1500, mem=14, mode="lean", replay="native:pw",
                             schema=[("pass", "bytes:24"), ("kd", "bytes:32")], replay_args={"backend": name, "kind": "local", "w": 255, "passlen": 2},
                             doc="%s PBKW local, default parameters, 2-byte password" % name))
-        out["C05"].append(H(group, P + "pw_roundtrip_secret_default_pw0", "t", timeout=1500, mem=10, mode="lean", replay="native:pw",
+        out["C05"].append(H(group, P + "pw_roundtrip_secret_default_pw0", "t", timeout=1500, mem=14, mode="lean", replay="native:pw",
                             schema=[("pass", "bytes:24"), ("kd", "bytes:%d" % sizes["secret_len"])], replay_args={"backend": name, "kind": "secret", "w": 255, "passlen": 0},
                             doc="%s PBKW secret, default parameters, empty password" % name))
-        out["C05"].append(H(group, P + "pw_default_must_succeed_", "t", timeout=900, mem=10, mode="lean", replay="native:pw", schema=[("pass", "bytes:2")],
+        out["C05"].append(H(group, P + "pw_default_must_succeed_", "t", timeout=900, mem=14, mode="lean", replay="native:pw", schema=[("pass", "bytes:2")],
                             replay_args={"backend": name, "kind": "local", "w": 255}, doc="%s PBKW: wrap with default parameters always succeeds" % name))
-        out["C05"].append(H(group, P + "pw_roundtrip_local_symbolic_params", "t", timeout=1800, mem=10, mode="lean", replay="none",
+        out["C05"].append(H(group, P + "pw_roundtrip_local_symbolic_params", "t", timeout=1800, mem=14, mode="lean", replay="none",
                             doc="%s PBKW: every parameter block the backend's own parser accepts either is refused by wrap or round-trips" % name))
         for n, w in (("pw_tamper_w0_bit", 0), ("pw_tamper_w1_relabel", 1), ("pw_tamper_w2_other_pw", 2), ("pw_tamper_w3_pw_longer", 3), ("pw_tamper_w4_pw_shorter", 4),
                      ("pw_tamper_w5_trunc", 5), ("pw_tamper_w6_extend", 6)):
-            out["C06"].append(H(group, P + n, q if w in (0, 2) else "t", timeout=1500, mem=10, mode="lean", replay="native:pw",
+            out["C06"].append(H(group, P + n, q if w in (0, 2) else "t", timeout=1500, mem=14, mode="lean", replay="native:pw",
                                 schema=TOK + [("pass", "bytes:2"), ("kd", "bytes:32")], replay_args={"backend": name, "kind": "local", "w": w},
                                 doc="%s PBKW: tamper class %s must be rejected" % (name, n[10:])))
         for n in ("pw_unwrap_arbitrary_n0", "pw_unwrap_arbitrary_below", "pw_unwrap_arbitrary_above"):
             ln = {"n0": 0, "below": sizes["pw_over"] - 1, "above": sizes["pw_over"] + 1}[n.rsplit("_", 1)[1]]
-            out["C04"].append(H(group, P + n, q if n.endswith("_above") else "t", timeout=1500, mem=10, mode="full", replay="native:pw_params" if ln else "native:arbitrary_len",
+            out["C04"].append(H(group, P + n, q if n.endswith("_above") else "t", timeout=1500, mem=14, mode="full", replay="native:pw_params" if ln else "native:arbitrary_len",
                                 schema=[("pass", "bytes:1"), ("blob", "bytes:%d" % ln)] if ln else [],
                                 replay_args={"backend": name, "op": "pw", "n": ln}, doc="%s: get_params + pw_unwrap_key on arbitrary bytes of length %d (above the minimum: every parameter block reaches the KDF parameter validation)" % (name, ln)))
     if pke:
-        out["C05"].append(H(group, P + "pke_roundtrip_", q, timeout=1800, mem=10, mode="lean", replay="native:pke", schema=[],
+        out["C05"].append(H(group, P + "pke_roundtrip_", q, timeout=1800, mem=14, mode="lean", replay="native:pke", schema=[],
                             replay_args={"backend": name, "w": 255, "out_len": sizes["pke_len"], "loops": sizes.get("pke_loops", 300)},
                             doc="%s PKE: seal to a generated recipient then unseal; output is exactly %d bytes" % (name, sizes["pke_len"])))
         for n, w in (("pke_tamper_w0_bit", 0), ("pke_tamper_w1_other_rcpt", 1), ("pke_tamper_w2_trunc", 2), ("pke_tamper_w3_extend", 3)):
-            out["C06"].append(H(group, P + n, q if w == 0 else "t", timeout=1800, mem=10, mode="lean", replay="native:pke", schema=TOK,
+            out["C06"].append(H(group, P + n, q if w == 0 else "t", timeout=1800, mem=14, mode="lean", replay="native:pke", schema=TOK,
                                 replay_args={"backend": name, "w": w}, doc="%s PKE: tamper class %s must be rejected" % (name, n[11:])))
         for n in ("pke_unseal_arbitrary_below", "pke_unseal_arbitrary_exact", "pke_unseal_arbitrary_above"):
             ln = sizes["pke_len"] + {"below": -1, "exact": 0, "above": 1}[n.rsplit("_", 1)[1]]
-            out["C04"].append(H(group, P + n, q if n.endswith("_exact") else "t", timeout=1800, mem=10, mode="full", replay="native:arbitrary_len", schema=[],
+            out["C04"].append(H(group, P + n, q if n.endswith("_exact") else "t", timeout=1800, mem=14, mode="full", replay="native:arbitrary_len", schema=[],
                                 replay_args={"backend": name, "op": "pke", "n": ln}, doc="%s: unseal_key on arbitrary bytes of length %d" % (name, ln)))
     if keys:
         for n in ("c08_local_key_codec_n32", "c08_local_key_codec_n31", "c08_local_key_codec_n33", "c08_local_key_codec_n64"):
-            out["C08"].append(H(group, P + n, q if n.endswith(("n32", "n33")) else "t", timeout=600, mem=10, mode="full", replay="none",
+            out["C08"].append(H(group, P + n, q if n.endswith(("n32", "n33")) else "t", timeout=600, mem=14, mode="full", replay="none",
                                 doc="%s local key: %s bytes are %s; encode(decode(b)) == b; clone encodes identically" % (name, n[-2:], "accepted" if n.endswith("n32") else "rejected")))
         for part, what in (("public", "the public (%d B) encoding survives decode->encode and clone unchanged" % keys["pub_len"]),
                            ("secret", "the secret (%d B) encoding survives decode->encode and clone unchanged%s" % (keys["sec_len"], "; its public half equals the derived public key" if keys.get("pub_in_secret") else "")),
                            ("rederive", "the re-parsed secret key derives the same public key")):
-            out["C08"].append(H(group, P + "c08_signing_key_codec_" + part, q if part != "secret" else "t", timeout=1500, mem=10, mode="lean", replay="none", fs=4,
+            out["C08"].append(H(group, P + "c08_signing_key_codec_" + part, q if part != "secret" else "t", timeout=1500, mem=14, mode="lean", replay="none", fs=4,
                                 doc="%s: a generated key pair: %s" % (name, what)))
         for n in ("c08_asym_wrong_len_short", "c08_asym_wrong_len_long", "c08_asym_wrong_len_33"):
-            out["C08"].append(H(group, P + n, "t", timeout=900, mem=10, mode="full", replay="none", doc="%s: public/secret key decoders reject byte strings of a wrong length (%s)" % (name, n.rsplit("_", 1)[1])))
+            out["C08"].append(H(group, P + n, "t", timeout=900, mem=14, mode="full", replay="none", doc="%s: public/secret key decoders reject byte strings of a wrong length (%s)" % (name, n.rsplit("_", 1)[1])))
         for n, ln in (("c10_pke_key_wrong_len_32", "32 = a local key"), ("c10_pke_key_wrong_len_33", "33 = a key id"), ("c10_pke_key_wrong_len_short", "secret length - 1")):
-            out["C08"].append(H(group, P + n, q if n.endswith("_32") else "t", timeout=900, mem=10, mode="full", replay="none",
+            out["C08"].append(H(group, P + n, q if n.endswith("_32") else "t", timeout=900, mem=14, mode="full", replay="none",
                                 doc="%s: the PKE public/secret key decoders (same text headers as public/secret) reject byte strings of another length (%s)" % (name, ln)))
         for n in ("c13_id_transcript_lid", "c13_id_transcript_sid", "c13_id_transcript_pid"):
-            out["C13"].append(H(group, P + n, q if n.endswith("lid") else "t", timeout=600, mem=10, mode="full", replay="none",
+            out["C13"].append(H(group, P + n, q if n.endswith("lid") else "t", timeout=600, mem=14, mode="full", replay="none",
                                 doc="%s hash_key: the digest input is exactly paserk header ‖ %s ‖ key text and the id is its first 33 bytes" % (name, n[-3:])))
     for k, hs in (extra or {}).items():
         out[k] += hs
@@ -443,7 +443,7 @@ PROPS["C11"] = Prop(
     outside=["timestamps outside ±2^36 s (jiff's range is wider)", "strings longer than 3 bytes / non-ASCII (comparison is byte-wise memcmp)"],
     models=["none: real paseto-core, paseto-json and jiff code"], assumptions=["Kani/CBMC soundness"])
 
-_pae = [H("core_units", "pae::" + n, t, timeout=to, mem=10, doc=d) for n, t, to, d in [
+_pae = [H("core_units", "pae::" + n, t, timeout=to, mem=14, doc=d) for n, t, to, d in [
     ("pae_n0", "qt", 300, "N=0"),
     ("pae_n1_frag0123", "qt", 900, "N=1, 0..3 fragments of symbolic length 0..600"),
     ("pae_n2", "t", 1500, "N=2, fragment lengths symbolic 0..600"),
@@ -493,7 +493,7 @@ PROPS["C16"] = Prop(
 # API-level harnesses run without CBMC's pointer instrumentation (mode nomem): in full mode the SAT
 # instances exceed 14 GB; Rust-level panics (index, slice, unwrap, overflow) are still checked, and
 # paseto-core's only unsafe block (base64.rs) is covered in full mode by the base64 harnesses
-_api = [H("core_units", "api::" + n, t, timeout=to, mem=6, mode="nomem", doc=d) for n, t, to, d in [
+_api = [H("core_units", "api::" + n, t, timeout=to, mem=12, mode="nomem", doc=d) for n, t, to, d in [
     # every byte symbolic, header included (decision only: accepted <=> == header + canonical tail)
     ("keytext_local_t0", "qt", 900, "KeyText<Local>: every 9-byte string; accepted iff == 'k4.local.'"),
     ("keytext_local_short", "t", 600, "KeyText<Local>: 7-byte strings (shorter than the header) are rejected"),
@@ -575,9 +575,9 @@ _v2 = l2_backend("v2", "v2", False, {"secret_len": 64, "pke_len": 96, "nonce": 2
 _xa = {"C16": [H("v3awslc", "proofs::pw_rng_fail_closed_at0", "t", timeout=900, mode="lean", replay="none", doc="v3-aws-lc PBKW: failure of the salt draw only => Err"),
                H("v3awslc", "proofs::pw_rng_fail_closed_at1", "t", timeout=900, mode="lean", replay="none", doc="v3-aws-lc PBKW: failure of the nonce draw only => Err"),
                H("v3awslc", "proofs::local_nonce_is_draw_", "t", timeout=600, mode="lean", replay="none", doc="v3-aws-lc: the token nonce is exactly the drawn randomness")],
-       "C04": [H("v3awslc", "proofs::c04_ffi_ledger_sign", "qt", timeout=1500, mem=10, mode="full", replay="none",
+       "C04": [H("v3awslc", "proofs::c04_ffi_ledger_sign", "qt", timeout=1500, mem=14, mode="full", replay="none",
                  doc="v3-aws-lc unsafe FFI wrappers (lc/mod.rs, lc/ptr.rs): key parsing, public-key derivation, signing, signature serialisation, clone and encode free every aws-lc object exactly once and never use one after free (alloc/free ledger of the FFI model), every Kani memory-safety check on"),
-               H("v3awslc", "proofs::c04_ffi_ledger_key_parse", "qt", timeout=1500, mem=10, mode="full", replay="none",
+               H("v3awslc", "proofs::c04_ffi_ledger_key_parse", "qt", timeout=1500, mem=14, mode="full", replay="none",
                  doc="v3-aws-lc FFI wrappers: parsing arbitrary 48-byte secret and 49-byte public keys balances the alloc/free ledger on accept and on every reject path"),
                H("v3awslc", "proofs::c04_public_key_codec_len1", "qt", timeout=900, mem=12, mode="lean", replay="native:parse_any", schema=[], replay_args={"string": "k3.public.AA"},
                  doc="v3-aws-lc: every 1-byte string offered as k3.public is rejected or yields a key that encodes to 49 bytes (00 = point at infinity)"),
@@ -593,7 +593,7 @@ _PBKW_T = ["pw_roundtrip", "pw_tamper", "pw_default_must"]
 _demote(_v3, ["c10_pke_key_wrong_len_32", "local_roundtrip_m3_f2", "local_tamper_payload_bit", "public_tamper_payload_bit", "local_rng_fail", "public_rng_fail", "pie_rng_fail", "pw_rng_fail", "nonce_is_draw", "pie_tamper_w0", "local_unseal_arbitrary_min"])
 _x1 = {"C16": [H("v1", "proofs::pw_rng_fail_closed_at0", "t", timeout=900, mode="lean", replay="native:rng_fail", schema=[], replay_args={"backend": "v1", "op": "pw", "at": 0}, doc="v1 PBKW: failure of the salt draw only => Err"),
                H("v1", "proofs::pw_rng_fail_closed_at1", "t", timeout=900, mode="lean", replay="native:rng_fail", schema=[], replay_args={"backend": "v1", "op": "pw", "at": 1}, doc="v1 PBKW: failure of the nonce draw only => Err")],
-       "C13": [H("v1", "proofs::c13_id_transcript_lid", "t", timeout=600, mem=10, mode="full", replay="none", doc="v1 hash_key: the SHA-384 input is exactly k1 ‖ .lid. ‖ key text; id = first 33 bytes")]}
+       "C13": [H("v1", "proofs::c13_id_transcript_lid", "t", timeout=600, mem=14, mode="full", replay="none", doc="v1 hash_key: the SHA-384 input is exactly k1 ‖ .lid. ‖ key text; id = first 33 bytes")]}
 _v1 = l2_backend("v1", "v1", False, {"secret_len": 48, "pke_len": 592, "nonce": 32, "tag": 48, "sig": 256, "pie_over": 80, "pw_over": 100}, pke=False, public=False, extra=_x1)
 _demote(_v1, [])
 _demote(_va, ["public_seal_total", "local_tamper_payload_bit", "c04_ffi_ledger", "c04_public_key_codec", "local_unseal_arbitrary_min"])
@@ -637,13 +637,13 @@ for _h in PROPS["C04"].harnesses + PROPS["C09"].harnesses:
 # ------------------------------------------------------------------------------------------------
 PROPS["C03"] = Prop(
     "C03", [
-        H("v3", "proofs::c03_public_ecdsa_twin_accepted", "qt", timeout=1500, mem=10, mode="lean", replay="none", fs=4,
+        H("v3", "proofs::c03_public_ecdsa_twin_accepted", "qt", timeout=1500, mem=14, mode="lean", replay="none", fs=4,
           doc="paseto-v3 public: the (r, n-s) twin of a valid signature is a specification-conforming signature of the same message and must be accepted (cross-backend: paseto-v3-aws-lc emits high-S signatures about half of the time)"),
-        H("v3", "proofs::c03_local_ctr_counter_128bit", "qt", timeout=1800, mem=10, mode="lean", replay="native:ctr_pbkw", schema=[], replay_args={},
+        H("v3", "proofs::c03_local_ctr_counter_128bit", "qt", timeout=1800, mem=14, mode="lean", replay="native:ctr_pbkw", schema=[], replay_args={},
           doc="paseto-v3 local: with key, nonce (hence derived IV) and a 17-byte message symbolic, the two blocks fed to AES are IV and IV+1 mod 2^128 (full-width big-endian counter, as OpenSSL/aws-lc)"),
-        H("v1", "proofs::c03_local_ctr_counter_128bit", "t", timeout=2400, mem=10, mode="lean", replay="native:ctr_pbkw", schema=[], replay_args={},
+        H("v1", "proofs::c03_local_ctr_counter_128bit", "t", timeout=2400, mem=14, mode="lean", replay="native:ctr_pbkw", schema=[], replay_args={},
           doc="paseto-v1 local: the two blocks fed to AES for a 17-byte message are IV and IV+1 mod 2^128"),
-        H("v4", "proofs::c03_local_transcript", "qt", timeout=1500, mem=10, mode="lean", replay="none",
+        H("v4", "proofs::c03_local_transcript", "qt", timeout=1500, mem=14, mode="lean", replay="none",
           doc="paseto-v4 local: for every key/nonce/message/footer/assertion the four primitive calls (two keyed BLAKE2b derivations with the spec's domain strings, XChaCha20 keyed Ek/n2, BLAKE2b-MAC over PAE(h,n,c,f,i)) and the token layout n‖c‖t are exactly the spec's"),
     ],
     explanation="Real ciphertext bytes cannot be compared inside an ideal-primitive model, but what is fed to each primitive can, for all inputs: the harness reads the oracle's call log (and the AES model's block log, driven by the REAL ctr crate) and compares it with a reference written from the PASETO specification. PARTIAL CLAIM: built for paseto-v4 local (full transcript) and the AES-CTR counter width of paseto-v3 local; the other backends' transcripts, public tokens, and byte-level agreement of the libraries themselves are not claimed.",
@@ -654,7 +654,7 @@ PROPS["C03"] = Prop(
 
 PROPS["C07"] = Prop(
     "C07", [
-        H("v3", "proofs::c07_pie_ctr_counter_128bit", "qt", timeout=1800, mem=10, mode="lean", replay="native:ctr_pbkw", schema=[], replay_args={},
+        H("v3", "proofs::c07_pie_ctr_counter_128bit", "qt", timeout=1800, mem=14, mode="lean", replay="native:ctr_pbkw", schema=[], replay_args={},
           doc="paseto-v3 PIE wrap of a 32-byte key (two AES blocks): the blocks fed to AES are IV and IV+1 mod 2^128"),
     ],
     explanation="PARTIAL CLAIM: the AES-CTR counter width used by PASERK wrapping in paseto-v3 (the same cipher type is used by PIE, PBKW and PKE) is checked against the spec's full-width big-endian counter for every wrapping key, nonce and wrapped key; a counterexample is replayed end-to-end as a spec-conforming k3.local-pw blob (built natively from the real pbkdf2/hmac/sha2/aes/ctr crates with a 128-bit counter) that paseto-v3 and paseto-v3-aws-lc must both unwrap to the wrapped key. Derivation/tag transcripts of the other wraps and parameter-domain agreement between siblings are not claimed.",
@@ -672,7 +672,7 @@ PROPS["C08"] = Prop(
              "'verifies everything it signs' is C01"],
     models=L2_MODELS, assumptions=L2_ASSUME)
 
-_c13core = [H("core_units", "api::" + n, t, timeout=1500, mem=10, mode="nomem", doc=d) for n, t, d in [
+_c13core = [H("core_units", "api::" + n, t, timeout=1500, mem=14, mode="nomem", doc=d) for n, t, d in [
     ("c13_id_composition_local", "qt", "Key::id() (L3): the backend hash is asked for (\".lid.\", \"k4.local.\" ‖ base64url(key bytes)); the id is the digest it returns; Display is \"k4.lid.\" ‖ base64url(33 bytes)"),
     ("c13_id_composition_secret", "t", "same for secret keys (.sid. / .secret.)"),
     ("c13_id_composition_public", "t", "same for public keys (.pid. / .public.)"),
